@@ -254,13 +254,27 @@ SOLVER_STATS = {'queries': 0, 'seconds': 0.0, 'unsat': 0, 'sat': 0, 'unknown': 0
 def z3_check(script, timeout_ms=20000, want_model=False):
     """returns ('unsat'|'sat'|'unknown', model-or-None, seconds)"""
     t0 = time.time()
-    s = z3.SolverFor('QF_NRA')
-    s.set('timeout', int(timeout_ms))
-    try:
-        s.from_string(script)
-        r = str(s.check())
-    except z3.Z3Exception as e:
-        r = 'unknown'
+    # the limit is wall-clock time: a query that runs into it gets one more attempt with three times
+    # the budget, so that a machine that is busy with other work does not turn a decided query into
+    # an inconclusive one (a query that is still undecided then stays `unknown`, never a pass)
+    for budget in (int(timeout_ms), 3 * int(timeout_ms)):
+        s = z3.SolverFor('QF_NRA')
+        s.set('timeout', budget)
+        try:
+            s.from_string(script)
+            r = str(s.check())
+        except z3.Z3Exception as e:
+            r = 'unknown'
+            break
+        if r != 'unknown':
+            break
+        try:
+            why = s.reason_unknown()
+        except Exception:
+            why = ''
+        if 'timeout' not in why and 'cancel' not in why:
+            break
+        SOLVER_STATS['retried_after_timeout'] = SOLVER_STATS.get('retried_after_timeout', 0) + (1 if budget == int(timeout_ms) else 0)
     dt = time.time() - t0
     SOLVER_STATS['queries'] += 1
     SOLVER_STATS['seconds'] += dt
